@@ -203,7 +203,7 @@ def check_image_maxrange(acc, blob, params, R):
     else:
         got["prepend"] = got["append"] = pa
     acc.transitions += 6
-    acc.case(("maxrange", params["arch"], params["lf"], len(params["prepend"]), R), outcome=(got["arch"], str(got["stamps"])))
+    acc.case(("maxrange", params["arch"], params["lf"], len(params["prepend"]), len(params["append"]), R), outcome=(got["arch"], str(got["stamps"])))
     bad = [k for k in exp if got[k] != exp[k]]
     if bad:
         acc.fail("C18/pe/maxrange/" + "+".join(sorted(bad)), {"kind": "maxrange", "arch": params["arch"], "lf": params["lf"], "prepend_len": len(params["prepend"]), "maxrange": R}, {k: _j(exp[k]) for k in bad}, {k: _j(got[k]) for k in bad})
@@ -218,6 +218,13 @@ def chunk_maxrange(chunk, acc):
             acc.states += 1
             p = base_params(arch=arch, lf=lf, prepend=b"\x90" * n, append=b"TAIL")
             check_image_maxrange(acc, build(p), p, R)
+    # the range is about where the image starts: appended bytes are reported the same under any range that finds it
+    for R in (160, 256, 512, 1024, 2048):
+        for n in (0, 10):
+            for ap in (bytes((b % 255) + 1 for b in lcg(300, acc.seed + 4)), bytes((b % 255) + 1 for b in lcg(700, acc.seed + 5))):
+                acc.states += 1
+                p = base_params(arch=arch, lf=0x80, prepend=b"\x90" * n, append=ap)
+                check_image_maxrange(acc, build(p), p, R)
     acc.sample({"arch": arch, "maxrange": [2048, 4096], "prepend_lengths": [0, 1000, 1024, 1030, 1500, 2040], "e_lfanew": ["0x80", "0xf8", "0x4b0"]})
 
 
@@ -469,6 +476,19 @@ def chunk_precedence(chunk, acc):
         acc.case(("bare", maxidx), outcome=str(bc.version))
         if str(bc.version) != mt.get(maxidx, "Unknown"):
             acc.fail("C18/version/precedence/bare-block", {"kind": "bare", "max_index": maxidx}, mt.get(maxidx, "Unknown"), str(bc.version))
+    # the highest index carried in every type (index 36 changes its name with its type, an unknown index has none):
+    # the maximum is taken over the numeric indices
+    for maxidx in (35, 36, 37, 75, 79, 200):
+        for typ, val in ((1, b"\x00\x03"), (2, b"\x00\x00\x00\x05"), (3, b"h\x00"), (0, b"")):
+            for order in ("last", "first"):
+                recs = [(1, 1, b"\x00\x00"), (2, 1, b"\x00\x50")]
+                recs = recs + [(maxidx, typ, val)] if order == "last" else [(maxidx, typ, val)] + recs
+                bc = beacon.BeaconConfig(RC.block(recs))
+                acc.transitions += 1
+                got = call(lambda: (bc.max_setting_enum, str(bc.version)))
+                acc.case(("bare-typed", maxidx, typ, order), outcome=str(got))
+                if got != (maxidx, mt.get(maxidx, "Unknown")):
+                    acc.fail("C18/version/precedence/bare-block", {"kind": "bare", "max_index": maxidx, "type": typ, "order": order}, [maxidx, mt.get(maxidx, "Unknown")], got if isinstance(got, str) else list(got))
     acc.sample({"image": "PE with config in .data (key 2e)", "export_stamp": hex(stamps[-1]), "expect_version": et[stamps[-1]]})
 
 
@@ -499,8 +519,7 @@ def replay(case):
             blob = build(p)
             check_image(a, lambda: io.BytesIO(blob), p, "replay")
     elif case["kind"] == "maxrange":
-        p = base_params(arch=case["arch"], lf=case["lf"], prepend=b"\x90" * case["prepend_len"], append=b"TAIL")
-        check_image_maxrange(a, build(p), p, case["maxrange"])
+        chunk_maxrange({"arch": case["arch"]}, a)
     else:
         fam = {"beyond": lambda c, x: chunk_prepend({"part": 0}, x), "maxenum": lambda c, x: chunk_maxenum({"part": case.get("index", 0) // 8192}, x), "stamp": chunk_stamps, "string": chunk_strings, "precedence": chunk_precedence, "bare": chunk_precedence, "xorview": chunk_xorview}[case["kind"]]
         fam({}, a)
